@@ -182,6 +182,12 @@ var roleFinders = map[string]func(fn *ssa.Function) bool{
 	"(*Processor).ProcessFiles": func(fn *ssa.Function) bool {
 		return recvIs(fn, "Processor") && sig(fn) == "func(files []string) error" || (recvIs(fn, "Processor") && fn.Signature.Params().Len() == 1 && fn.Signature.Params().At(0).Type().String() == "[]string" && fn.Signature.Results().Len() == 1)
 	},
+	"(*Transformer).mergeFieldsOf": func(fn *ssa.Function) bool {
+		return recvIs(fn, "Transformer") && strings.Contains(sig(fn), "[]"+migPkg+".WirePattern") && strings.Contains(sig(fn), "map[string]*"+migPkg+".WireFieldsOf")
+	},
+	"(*TypeConverter).CollectExprImports": func(fn *ssa.Function) bool {
+		return recvIs(fn, "TypeConverter") && strings.Contains(sig(fn), "go/ast.Expr") && strings.Contains(sig(fn), "map[string]string") && fn.Signature.Results().Len() == 0
+	},
 }
 
 // resolveRole looks a function up by its pinned name, then by its role.
